@@ -1513,9 +1513,11 @@ func (c *DefaultCtx) Res() Res {
 func (c *DefaultCtx) Route() *Route {
 	if c.route == nil {
 		// Fallback for fasthttp error handler
+		// (a copy: pathOriginal can be a view of the request's URI buffer, which SendFile rewrites)
+		path := utils.CopyString(c.pathOriginal)
 		return &Route{
-			path:     c.pathOriginal,
-			Path:     c.pathOriginal,
+			path:     path,
+			Path:     path,
 			Method:   c.Method(),
 			Handlers: make([]Handler, 0),
 			Params:   make([]string, 0),
